@@ -1124,7 +1124,7 @@ static PyObject * matrix_imag(matrix *self) {
 
   matrix *ret;
   if (self->id != COMPLEX) {
-    PyObject *a = PyFloat_FromDouble(0);
+    PyObject *a = PyLong_FromLong(0);
     ret = Matrix_NewFromNumber(self->nrows, self->ncols, self->id, a, 2);
     Py_DECREF(a);
     if (!ret) return NULL;
